@@ -214,7 +214,7 @@ func GenScenario(r *rand.Rand, family string, idx int, o Opt) Scenario {
 	case "young-pipeline-at-stop":
 		// the first records of a brand-new key set arrive right before the stop: its pipeline is younger than the flush
 		// interval (made long here), so only the stop itself can flush its partial chunk
-		sc.InterFlushMs = 400
+		sc.InterFlushMs = 5000
 		sc.ChunkBytes = 200000
 		cs := conns()
 		late := ConnSpec{ID: nextID}
